@@ -149,6 +149,26 @@ def run_session(spec):
                     mem.reduce_size(items_limit=act.get("items_limit"), bytes_limit=act.get("bytes_limit"),
                                     age_limit=None if age is None else datetime.timedelta(seconds=age))
                     r = {"ok": None}
+                elif a == "damage":
+                    # harness-side: overwrite a final-named file with damaged content (NOT a crash state: it probes
+                    # the "load failure => warn and recompute" safety net of _cached_call / get_metadata)
+                    c05_shim.pause()
+                    try:
+                        p = os.path.join(LOC, "joblib", "vmod", "f", cf._get_args_id(act["k"]), act.get("file", "output.pkl"))
+                        with open(p, "rb") as fh:
+                            data = fh.read()
+                        n = len(data)
+                        kind = act["kind"]
+                        new = {"empty": b"", "zeros": b"\0" * n, "hole": data[:n // 3] + b"\0" * (n - n // 3 - n // 3) + data[n - n // 3:],
+                               "garbage": b"garbage", "ff": b"\xff\xfe\xfd", "half": data[:n // 2], "minus1": data[:-1],
+                               "one": data[:1], "binget": b"\x80\x04h\x05.", "longbinget": b"\x80\x04j\x05\x00\x00\x00.",
+                               "proto9": b"\x80\x09N.", "text": b"{\"a\": 1}", "zlibhdr": b"ZF0x10" + b"\0" * 10,
+                               "zlibcut": b"\x78\x9c\x01"}[kind]
+                        with open(p, "wb") as fh:
+                            fh.write(new)
+                    finally:
+                        c05_shim.resume()
+                    r = {"ok": None}
                 elif a == "atime":
                     c05_shim.pause()
                     try:
